@@ -400,11 +400,10 @@ func (d *DNSFilter) refreshFiltersIntl(block, allow, force bool) (int, bool) {
 		toUpd = append(toUpd, toUpdAl...)
 		isNetErr = isNetErr || isNetErrAl
 	}
-	if isNetErr {
-		return 0, true
-	}
-
 	if updNum != 0 {
+		// Rebuild the engines even if all lists of one kind have failed to
+		// update, since the lists of the other kind may have been replaced on
+		// disk, and their metadata has already been updated.
 		d.EnableFilters(false)
 
 		for i := range lists {
@@ -420,6 +419,10 @@ func (d *DNSFilter) refreshFiltersIntl(block, allow, force bool) (int, bool) {
 				log.Debug("filtering: removing old filter file %q: %s", p, err)
 			}
 		}
+	}
+
+	if isNetErr {
+		return 0, true
 	}
 
 	return updNum, false
